@@ -31,7 +31,7 @@ RULE = ("one run = 1..4 generated Intel-HEX images (1..8 data areas across 64 Ki
         "written out of address order, record lengths 1..255, LF / CRLF) hashed by `signapp hash` in two "
         "different writings each, embedded by `signapp message` for successive releases (same output path, "
         "fresh paths, console), then signed by `signonetime` (distinct file names or build<i>/app.hex) "
-        "twice under two different entropy streams "
+        "twice under two different entropy streams (each run without / with -v / --verbose) "
         "(and once more under the first stream); non-trivial = at least one signature file was written; "
         "distinct = (#images, #areas, multi-zone, out-of-order, record-length set, eol)")
 TIERS = {"quick": {"runs": 5000, "wall": 240}, "thorough": {"runs": 100000, "wall": 3000}}
@@ -64,7 +64,7 @@ class _Replay:
         return out
 
 
-def run_signonetime(ch_seed, images, paths, leftovers=None, trouble=None):
+def run_signonetime(ch_seed, images, paths, leftovers=None, trouble=None, options=()):
     """trouble: None or (image index, kind) - kind 'missing' (the image is not there), 'read-eio' /
     'read-eperm' (opening it fails), 'sig-enospc' / 'sig-eperm' (its signature file cannot be written)"""
     ch = Choices(seed=ch_seed)
@@ -90,7 +90,7 @@ def run_signonetime(ch_seed, images, paths, leftovers=None, trouble=None):
         w.fs.put(p, content)
     before = dict(w.fs.files)
     st, out = w.run_tool(signonetime.main, ["signonetime.py", "-a", ",".join(paths), "-p",
-                                            "/simfs/onetime.pub"])
+                                            "/simfs/onetime.pub"] + list(options))
     w.entropy_on = False
     written = sorted(set(p for p, _ in w.fs.writes))
     return w, st, out, written, before
@@ -161,7 +161,10 @@ def run_one(ch, cfg):
     s1, s2 = ch.draw(1 << 30, "entropy-1"), ch.draw(1 << 30, "entropy-2")
     if s1 == s2:
         s2 = s1 + 1
-    first = run_signonetime(s1, images, paths)
+    # the tool's other command-line options (the operator may ask for verbose output)
+    opts = [(), ("-v",), ("--verbose",)]
+    o1, o2 = ch.pick(opts, "options-1"), ch.pick(opts, "options-2")
+    first = run_signonetime(s1, images, paths, options=o1)
     left = None
     if ch.draw(2, "second-run-in-same-directory") == 1:
         left = {p: d for p, d in first[0].fs.files.items() if p.endswith(".sig") or p.endswith(".pub")}
@@ -170,7 +173,7 @@ def run_one(ch, cfg):
     if ch.draw(5, "image-in-trouble") == 1:
         trouble = (ch.draw(nimg, "trouble.image"),
                    ch.pick(["missing", "read-eio", "read-eperm", "sig-enospc", "sig-eperm"], "trouble.kind"))
-    runs = [first, run_signonetime(s2, images, paths, leftovers=left, trouble=trouble)]
+    runs = [first, run_signonetime(s2, images, paths, leftovers=left, trouble=trouble, options=o2)]
     pubs = []
     for ri, (w, st, out, written, before) in enumerate(runs):
         tag = "signonetime run %d" % ri
